@@ -1,0 +1,54 @@
+//go:build verif
+
+package alphabet
+
+//@ # C17: the codon dictionary and complement tables are straight-line builders, inlined (symbolically executed) in lemmas.
+//@ func MakeCodonDict inline
+//@ func MakeCompArray inline
+//@ func MakeEncodedCompArray inline
+
+//@ spec isNuc15(c byte) bool = c == 'A' || c == 'C' || c == 'G' || c == 'T' || c == 'R' || c == 'Y' || c == 'S' || c == 'W' || c == 'K' || c == 'M' || c == 'B' || c == 'D' || c == 'H' || c == 'V' || c == 'N'
+//@ spec firstProduct(a byte, b byte, c byte) byte = stdcode(pickbase(bases(a)), pickbase(bases(b)), pickbase(bases(c)))
+//@ # complement of a base set: A(8)<->T(1), G(4)<->C(2)
+//@ spec complSet(s byte) byte = ((s & 8) >> 3) | ((s & 1) << 3) | ((s & 4) >> 1) | ((s & 2) << 1)
+
+//@ # sound and complete over all 15^3 = 3375 IUPAC codons: a codon has an entry iff every A/C/G/T expansion has the same
+//@ # product under the standard code (NCBI table 1, spec/gencode.spec), and the entry is that product.
+//@ lemma codon_complete [C17,C04]: forallb(a, forallb(b, forallb(c, implies(isNuc15(a) && isNuc15(b) && isNuc15(c) && allprod(bases(a), bases(b), bases(c), firstProduct(a, b, c)), in(MakeCodonDict(), str3(a, b, c))))))
+//@ lemma codon_no_extra [C17,C04]: forallb(a, forallb(b, forallb(c, implies(isNuc15(a) && isNuc15(b) && isNuc15(c) && in(MakeCodonDict(), str3(a, b, c)), allprod(bases(a), bases(b), bases(c), firstProduct(a, b, c))))))
+//@ lemma codon_sound [C17,C04]: forallb(a, forallb(b, forallb(c, implies(isNuc15(a) && isNuc15(b) && isNuc15(c) && in(MakeCodonDict(), str3(a, b, c)), MakeCodonDict()[str3(a, b, c)] == symstr(firstProduct(a, b, c))))))
+//@ # the 64 unambiguous codons against the independently encoded table
+//@ lemma codon_standard64 [C17]: forallb(a, forallb(b, forallb(c, implies(isACGT(a) && isACGT(b) && isACGT(c) && a == upper(a) && b == upper(b) && c == upper(c), in(MakeCodonDict(), str3(a, b, c)) && MakeCodonDict()[str3(a, b, c)] == symstr(stdcode(a, b, c))))))
+//@ # complement: the complement symbol denotes the base-wise complements; case is preserved; involution
+//@ lemma comp_text [C17]: forallb(c, implies(accepted(c), bases(MakeCompArray()[c]) == complSet(bases(c)) && accepted(MakeCompArray()[c]) && ((c >= 'a' && c <= 'z') == (MakeCompArray()[c] >= 'a' && MakeCompArray()[c] <= 'z'))))
+//@ lemma comp_involution [C17]: forallb(c, implies(accepted(c), MakeCompArray()[MakeCompArray()[c]] == c))
+//@ lemma comp_encoded [C17]: forallb(c, implies(accepted(c), MakeEncodedCompArray()[encoding.MakeEncodingArray()[c]] == encoding.MakeEncodingArray()[MakeCompArray()[c]]))
+//@ lemma comp_encoded_involution [C17]: forallb(c, implies(accepted(c), MakeEncodedCompArray()[MakeEncodedCompArray()[encoding.MakeEncodingArray()[c]]] == encoding.MakeEncodingArray()[c]))
+
+//@ # loops: complement is applied character-wise; reverse-complement reverses it in place
+//@ func Complement
+//@   loop 1:
+//@     invariant 0 <= i && i <= len(nuc) && len(ba) == len(nuc)
+//@     invariant forall(j, 0, i, ba[j] == CA[nuc[j]])
+//@   ensures len(result) == len(nuc) && forall(j, 0, len(nuc), result[j] == MakeCompArray()[nuc[j]])
+
+//@ func ReverseComplement
+//@   loop 1:
+//@     invariant 0 <= i && i + j == len(nuc) - 1 && len(temp) == len(nuc)
+//@     invariant forall(k, 0, i, temp[k] == MakeCompArray()[nuc[len(nuc)-1-k]])
+//@     invariant forall(k, j+1, len(nuc), temp[k] == MakeCompArray()[nuc[len(nuc)-1-k]])
+//@     invariant forall(k, i, j+1, temp[k] == MakeCompArray()[nuc[k]])
+//@   ensures len(result) == len(nuc) && forall(k, 0, len(nuc), result[k] == MakeCompArray()[nuc[len(nuc)-1-k]])
+
+//@ # Translate: the k-th residue is the dictionary entry of the k-th codon, 'X' (or an error in strict mode) when there is none
+//@ func Translate
+//@   loop 1:
+//@     invariant 0 <= i && i <= len(nuc) && 0 <= counter && counter < 3 && i == 3 * len(translation) + counter
+//@     invariant codon == ite(counter == 0, "", ite(counter == 1, string(nuc[i-1]), string(nuc[i-2]) + string(nuc[i-1])))
+//@     invariant forall(k, 0, len(translation), translation[k] == ite(in(CD, str3(nuc[3*k], nuc[3*k+1], nuc[3*k+2])), CD[str3(nuc[3*k], nuc[3*k+1], nuc[3*k+2])][0], 'X'))
+//@     invariant implies(strict, forall(k, 0, len(translation), in(CD, str3(nuc[3*k], nuc[3*k+1], nuc[3*k+2]))))
+//@   ensures [err.mod3] implies(len(nuc) % 3 != 0, result2 != nil)
+//@   ensures [err.strict] implies(result2 != nil && len(nuc) % 3 == 0, strict && exists(k, 0, len(nuc) / 3, !in(MakeCodonDict(), str3(nuc[3*k], nuc[3*k+1], nuc[3*k+2]))))
+//@   ensures [ok.len] implies(result2 == nil, 3 * len(result1) == len(nuc))
+//@   ensures [ok.residues] implies(result2 == nil, forall(k, 0, len(result1), result1[k] == ite(in(MakeCodonDict(), str3(nuc[3*k], nuc[3*k+1], nuc[3*k+2])), MakeCodonDict()[str3(nuc[3*k], nuc[3*k+1], nuc[3*k+2])][0], 'X')))
+//@   ensures [ok.strict] implies(result2 == nil && strict, forall(k, 0, len(result1), in(MakeCodonDict(), str3(nuc[3*k], nuc[3*k+1], nuc[3*k+2]))))
